@@ -69,6 +69,11 @@ def cases(tier, seed):
                       seed=dss[0]['seed'] + 31 * dd_ + len(dss)))
       dss.append(dict(dss[0], variant='illcond5', d=dd_, classes=dd_ + 1,
                       seed=dss[0]['seed'] + 37 * dd_ + len(dss)))
+    # data far from the origin: every learner is translation invariant on
+    # paper, sums of uncentred products are not
+    for dd_ in ((3,) if tier == 'quick' else (2, 3, 4, 5, 3, 2)):
+      dss.append(dict(dss[0], variant='far_offset', d=dd_,
+                      seed=dss[0]['seed'] + 41 * dd_ + len(dss)))
     for di, ds in enumerate(dss):
       full = configs.product(name, ds['d'], ds['classes'])
       if tier == 'quick':
@@ -90,6 +95,21 @@ def cases(tier, seed):
                     k_ in ('k',)})
         out.append({'est': name, 'params': cfg, 'ds': ds, 'hyper': True,
                     'seed': int(r.randint(1000))})
+  # noisily annotated triplets: a handful of relative judgments of which
+  # every one is also present the other way round ((a, b, c) and (a, c, b)).
+  # Nothing in the contract forbids contradictory judgments, no pair is
+  # collapsed, and SCML's triplet_diffs basis builder has to cope with draws
+  # whose difference matrix cancels.
+  for h in range(40 if tier == 'quick' else 600):
+    r = rng_for('c3n', seed, h)
+    out.append({'est': 'SCML', 'contradict': int(2 + h % 3),
+                'params': {'basis': 'triplet_diffs',
+                           'n_basis': [None, 8, 20][h % 3]},
+                'ds': {'seed': int(r.randint(2**31 - 1)), 'd': 2,
+                       'classes': 2, 'labels': 'range', 'order': 'C',
+                       'variant': ['dyadic', 'plain', 'int'][h % 3 if h % 2
+                                                             else 0]},
+                'seed': int(r.randint(100000))})
   return out
 
 
@@ -114,6 +134,23 @@ def run_case(spec, j):
   ds = common.dataset(spec['ds'])
   d = ds['d']
   f = common.build(spec, ds)
+  if spec.get('contradict'):
+    r = rng_for('c3n-t', spec['ds']['seed'], spec['seed'])
+    X_, y_ = np.asarray(ds['X'], dtype=float), np.asarray(ds['y'])
+    base = []
+    while len(base) < spec['contradict']:
+      a = int(r.randint(len(y_)))
+      same = np.flatnonzero((y_ == y_[a]) & (np.arange(len(y_)) != a))
+      other = np.flatnonzero(y_ != y_[a])
+      b, c = int(r.choice(same)), int(r.choice(other))
+      if np.any(X_[a] != X_[b]) and np.any(X_[a] != X_[c]) and \
+              np.any(X_[b] != X_[c]):
+        base.append((a, b, c))
+    base = np.array(base)
+    T_ = np.vstack([base, base[:, [0, 2, 1]]])
+    f.args = (X_[T_[r.permutation(len(T_))]],)
+    f.kwargs = {}
+    j.count('contradictory-triplet-sets')
   _captured['scml'].clear()
   api.set_judge(j, well_formed=True)
   det = {'est': name, 'params': spec.get('params'), 'd': d, 'n': ds['n'],
